@@ -203,9 +203,8 @@ def shouldBreakWithSpace (ending next : Nat) : Bool :=
   else if ending == 46 then next == 46 || isDigit next  -- '.' then '.' or digit
   else false
 
-/-- utils.rs `break_concat` and `break_variable_arguments` (identical bodies), on the code
-points of the last pushed string. -/
-def breakConcat (last : List Nat) : Bool :=
+/-- utils.rs `break_variable_arguments`, on the code points of the last pushed string. -/
+def breakVariableArguments (last : List Nat) : Bool :=
   match last.getLast? with
   | some 46 => true
   | _ =>
@@ -213,7 +212,18 @@ def breakConcat (last : List Nat) : Bool :=
     | some c => c == 46 || isDigit c
     | none => false
 
-def breakVariableArguments (last : List Nat) : Bool := breakConcat last
+/-- utils.rs `break_concat`: like `break_variable_arguments`, after stripping one leading `-`
+(a negative number is written with a leading `-`). -/
+def breakConcat (last : List Nat) : Bool :=
+  match last.getLast? with
+  | some 46 => true
+  | _ =>
+    let numeral := match last with
+      | 45 :: rest => rest
+      | l => l
+    match numeral.head? with
+    | some c => c == 46 || isDigit c
+    | none => false
 
 /-- utils.rs `break_minus`. -/
 def breakMinus (last : List Nat) : Bool := last.getLast? == some 45
